@@ -31,6 +31,8 @@ import (
 	"encoding/binary"
 	"encoding/hex"
 	"fmt"
+	"net/http"
+	"net/http/httptest"
 	"os"
 	"path/filepath"
 	"strconv"
@@ -300,6 +302,7 @@ type c10Fixture struct {
 	synth    map[string]string
 	nCase    int
 	varEp    map[string]*Epoch
+	httpSrv  *httptest.Server
 	// set when the libp2p host of newLassieWrapper cannot start: Filecoin-mode loads are then left out (CAR mode only)
 	noFilecoin bool
 }
@@ -841,9 +844,17 @@ func (h *c10H) variantEpoch(v string) (*Epoch, error) {
 	if ep, ok := fx.varEp[v]; ok {
 		return ep, nil
 	}
-	car, ok := fx.cars[v]
+	car, ok := fx.cars[strings.TrimSuffix(v, "@http")]
 	if !ok {
 		return nil, fmt.Errorf("unknown CAR variant %q", v)
+	}
+	if strings.HasSuffix(v, "@http") {
+		// the same file behind an HTTP server that honours Range requests: the epoch reads it through remoteCarReader
+		// (readNodeFromReaderAtWithOffsetAndSize / readSectionFromReaderAt) instead of the local reader
+		if fx.httpSrv == nil {
+			fx.httpSrv = httptest.NewServer(http.FileServer(http.Dir("/")))
+		}
+		car = fx.httpSrv.URL + car
 	}
 	cfg := fmt.Sprintf("epoch: %d\nversion: 1\ndata:\n  car:\n    uri: '%s'\nindexes:\n%s", fx.A.G.Epoch, car, fx.A.Paths.String())
 	p := filepath.Join(fx.dir, "variant-"+v+".yml")
@@ -1483,13 +1494,13 @@ func (h *c10H) generate(thorough bool) {
 
 	// --- CID-addressed fetches through epoch A's indexes with another CAR behind them
 	h.exec("case wrong-car")
-	for _, v := range []string{"own", "twin"} {
+	for _, v := range []string{"own", "twin", "own@http", "twin@http"} {
 		ep, err := h.variantEpoch(v)
 		if err != nil {
 			h.s.Count("pfetch:" + v + ":epoch-does-not-load")
 			continue
 		}
-		car, _ := os.ReadFile(fx.cars[v])
+		car, _ := os.ReadFile(fx.cars[strings.TrimSuffix(v, "@http")])
 		for bi, b := range fx.A.G.Blocks {
 			if bi >= 6 && !thorough {
 				break
@@ -1510,7 +1521,7 @@ func (h *c10H) generate(thorough bool) {
 			}
 		}
 	}
-	for _, v := range []string{"own", "other", "shift", "cut", "twin"} {
+	for _, v := range []string{"own", "other", "shift", "cut", "twin", "own@http", "other@http", "shift@http", "cut@http", "twin@http"} {
 		ep, err := h.variantEpoch(v)
 		if err != nil {
 			// not a violation by itself: the property allows loading to fail here
@@ -1518,10 +1529,10 @@ func (h *c10H) generate(thorough bool) {
 			h.s.Count("fetch:" + v + ":epoch-does-not-load")
 			continue
 		}
-		car, _ := os.ReadFile(fx.cars[v])
+		car, _ := os.ReadFile(fx.cars[strings.TrimSuffix(v, "@http")])
 		objs := fx.A.G.Objs
 		step := 1
-		if v == "own" && !thorough {
+		if strings.HasPrefix(v, "own") && !thorough {
 			step = 7
 		}
 		for i := 0; i < len(objs); i += step {
@@ -1624,6 +1635,9 @@ func TestVerifC10(t *testing.T) {
 	defer func() {
 		for _, ep := range fx.varEp {
 			ep.Close()
+		}
+		if fx.httpSrv != nil {
+			fx.httpSrv.Close()
 		}
 	}()
 	if rp := zz.ReplayFile(); rp != "" {
